@@ -228,6 +228,9 @@ def run_attack(case):
     if att == 'DPA':
         disc = scared.maxabs
     kw = dict(selection_function=sf, discriminant=disc, precision=['float32', 'float64'][int(rng.integers(2))])
+    if rng.random() < 0.3:
+        kw['convergence_step'] = int(rng.choice([300, 500, 700]))       # scores are computed several times along the run
+        t.count('attacks_with_convergence_step')
     maxhw = 8 if cipher == 'aes' else (6 if ark else 4)
     if att == 'CPA':
         a = scared.CPAAttack(model=scared.HammingWeight(), **kw)
